@@ -178,6 +178,31 @@ def correspondence(ctx, violations, known_hits):
                 violations.append({"kind": "not-all-or-nothing", "class": tag, "destination": dk, "fault": "the reader of compile's stdout went away after the first line",
                                    "source": text, "exit": rc, "destination_before": before.hex() if before else None,
                                    "destination_after": after.hex() if after is not None else None, "model_exit": mo[0]})
+    # the process's WORKING DIRECTORY has been removed under it (getcwd fails); source and destination are given by absolute path
+    for tag, text in (("ok", "lea r0 s\nputs\nhalt\ns .stringz \"hi\"\n"), ("parse-error", "add r0\n")):
+        mo = [int(x, 16) for x in ctx.run_model([C06.obj_case(0, text)], tag="objcwd")[0][0].split()]
+        exp_bytes = bytes(mo[2:2 + mo[1]]) if mo[0] == 0 else None
+        for dk in ("absent", "existing"):
+            sub = os.path.join(d, f"cwd-{tag}-{dk}"); os.makedirs(sub, exist_ok=True)
+            gone = os.path.join(sub, "gone"); os.makedirs(gone, exist_ok=True)
+            srcp = os.path.join(sub, "p.asm"); open(srcp, "w").write(text)
+            dest = os.path.join(sub, "out.lc3")
+            if dk == "existing":
+                open(dest, "wb").write(OLD)
+            def vanish(g=gone):
+                os.chdir(g); os.rmdir(g)
+            p = subprocess.run([exe, "compile", srcp, dest], stdout=subprocess.DEVNULL, stderr=subprocess.DEVNULL, stdin=subprocess.DEVNULL,
+                               env=dict(os.environ, NO_COLOR="1", RUST_BACKTRACE="0"), preexec_fn=vanish, timeout=20)
+            after = open(dest, "rb").read() if os.path.exists(dest) else None
+            before = OLD if dk == "existing" else None
+            ev += 1
+            sigs.add(("cwd-gone", tag, dk, p.returncode == 0))
+            good = (p.returncode == 0 and exp_bytes is not None and after == exp_bytes) or (p.returncode != 0 and after == before)
+            if not good:
+                nv += 1
+                violations.append({"kind": "not-all-or-nothing", "class": tag, "destination": dk, "fault": "the working directory was removed (getcwd fails); absolute paths",
+                                   "source": text, "exit": p.returncode, "destination_before": before.hex() if before else None,
+                                   "destination_after": after.hex() if after is not None else None, "model_exit": mo[0]})
     # the destination CAN be created but NOT completely written: a file-size limit of 1 KiB (RLIMIT_FSIZE, SIGXFSZ ignored, as a
     # full disk or quota would do) and an image of 2 KiB - absent and pre-existing regular destinations, in a fresh directory that
     # must hold nothing new afterwards
@@ -211,7 +236,7 @@ def correspondence(ctx, violations, known_hits):
         "evaluations": ev, "distinct_nontrivial": len(sigs),
         "rule": "fault enumeration at the CLI: an out-of-range label reference injected at EVERY statement position 0..n of programs "
                 "with n up to 40 (several PC-relative instructions), plus parse/lex/label errors and valid programs, x destination "
-                "absent / pre-existing with unrelated contents, empty, a proper prefix of the new object file, the new object file followed by stale words / a link to /dev/full / missing directory / a directory in place of the file / a dangling link / a file name that is not valid UTF-8 (absent, pre-existing); sources without any statement (empty, comments, `.orig` alone, `.end` first); the reader of compile's standard output going away after the first progress line; a file-size limit below the image's size (the destination can be created but not completely written); the scratch directory must hold nothing new; "
+                "absent / pre-existing with unrelated contents, empty, a proper prefix of the new object file, the new object file followed by stale words / a link to /dev/full / missing directory / a directory in place of the file / a dangling link / a file name that is not valid UTF-8 (absent, pre-existing); sources without any statement (empty, comments, `.orig` alone, `.end` first); the reader of compile's standard output going away after the first progress line; a working directory removed under the process (absolute paths); a file-size limit below the image's size (the destination can be created but not completely written); the scratch directory must hold nothing new; "
                 "observed: exit status and the bytes at the destination before and after; distinct = distinct (class, destination, exit==0)",
         "exhaustive": True, "exhaustive_over": "failing statement position 0..n for each listed n",
         "histogram": hist, "samples": samples, "mismatches": nv,
